@@ -141,6 +141,9 @@ def cases(tier):
             yield ("relation", cmd, dt, tier)
     yield ("inverse", "CvtFromFuzzy", "float", tier)
     for cmd in CMDS:
+        if cmd != "CvtFromFuzzy":
+            yield ("offset", cmd, tier)
+    for cmd in CMDS:
         yield ("edited", cmd, tier)
 
 
@@ -174,6 +177,36 @@ def _run_cmd(case):
                 sample = tag
         if len(viols) > 200:
             viols = viols[:200]
+    return {"evals": evals, "nontrivial": evals, "judged": counters["judged"], "unspecified": counters["unspecified"], "viols": viols,
+            "outcomes": outcomes, "sample": sample}
+
+
+def _run_offset(case):
+    """data far from zero with a small spread (100000 + {0, 1, 2.5, 4}) and narrow integers whose squares do not fit their type (int32
+    50000 + {0, 1, 3, 7}): the statistics-based conversions must still follow the exact reference"""
+    _, cmd, tier = case
+    viols = []
+    counters = {"judged": 0, "unspecified": 0}
+    outcomes = {}
+    evals = 0
+    sample = None
+    for dt, lat in (("float", [F(100000), F(100001), F(200005, 2), F(100004)]), ("int32", [F(50000), F(50001), F(50003), F(50007)])):
+        for size in (3, 4):
+            for cells in (arrays_of(lat, size) if size == 3 else [list(lat), list(reversed(lat)), lat[:3] + [M], [M] + lat[1:]]):
+                for params in presets(cmd):
+                    arr = D.mk_array(cells, dtype=dt)
+                    res = D.execute(cmd, [arr], params)
+                    tag = {"cmd": cmd, "params": params, "cells": [str(c) for c in cells], "dtype": dt}
+                    nv = len(viols)
+                    oc = D.judge("C08", cmd, params, [cells], res, (size,), viols, tag, counters, V)
+                    for v in viols[nv:]:
+                        v["key"] += ":offset-data:" + dt
+                    k = "%s:offset:%s" % (cmd, oc)
+                    outcomes[k] = outcomes.get(k, 0) + 1
+                    evals += 1
+                    sample = tag
+            if len(viols) > 60:
+                viols = viols[:60]
     return {"evals": evals, "nontrivial": evals, "judged": counters["judged"], "unspecified": counters["unspecified"], "viols": viols,
             "outcomes": outcomes, "sample": sample}
 
@@ -362,4 +395,6 @@ def run(case):
         return _relation(case)
     if case[0] == "inverse":
         return _inverse(case)
+    if case[0] == "offset":
+        return _run_offset(case)
     return _run_cmd(case)
